@@ -112,6 +112,14 @@ def auto_discharge(prog, sink):
             ok, how = strict_index(prog, fn, sink.bb, iop, depth=2)
             if ok:
                 return True, "index: " + how
+        elif iop is not None and iop[0] in ("c", "m"):
+            # the index bound in several match arms and handed on in a tuple: every value it can hold is such a payload, and
+            # the slice indexed is the one that was searched
+            from . import paths as _paths, decision as _decision
+            lv = _paths.leaf_values(fn, iop)
+            spec = {"call": POSITION_RX + r"|^core::str::<impl str>::(find|rfind)$", "payload": "Some"}
+            if lv and all(l[0] == "call" and guards.origin_matches(fn, [("call", l[1], l[2])], spec) for l in lv):
+                return True, "index: every value it can hold is the payload of position()/find() (index < len), %d definition(s)" % len(lv)
     if sink.kind == "panic-call" and sink.what in ("slice index", "str index") and len(sink.payload.args) > 1:
         # `s[piece.len()..]` / `s[..piece.len()]` where `piece` is a piece of `s` itself: the first item of a split of s, or
         # (by unwrap_or / the empty-input case) s as a whole -- a piece is never longer than what it was cut from
